@@ -71,6 +71,16 @@ func NewResponseFilterWriter(filters []ResponseFilter, gz *gzipResponseWriter) *
 // WriteHeader wraps underlying WriteHeader method and
 // compresses if filters are satisfied.
 func (r *ResponseFilterWriter) WriteHeader(code int) {
+	if r.statusCodeWritten {
+		// the header is out (net/http ignores such a call as well); deciding
+		// again would change the coding in the middle of the body
+		return
+	}
+	if code >= 100 && code <= 199 && code != http.StatusSwitchingProtocols {
+		// informational: the decision belongs to the final header
+		r.ResponseWriter.WriteHeader(code)
+		return
+	}
 	// Determine if compression should be used or not.
 	r.shouldCompress = true
 	for _, filter := range r.filters {
